@@ -94,6 +94,23 @@ def gen_cases(ctx):
         for l in w["layers"]:
             if l["kind"] != "unit" and rng.random() < 0.7:
                 l["testSetUp"] = l["testTearDown"] = True
+        if i % 5 == 0:
+            # runs of consecutive decorator-skipped tests (no startTest on this Python) between other outcomes
+            tok = [1000]
+            lid = [k for k, l in enumerate(w["layers"]) if l["kind"] != "unit"]
+            if lid:
+                li = rng.choice(lid)
+                base = max([t["id"] for t in w["tests"]] + [0]) + 1
+                kinds = rng.choice([["skipDeco", "skipDeco"], ["pass", "skipDeco", "skipDeco", "skipDeco", "fail"],
+                                    ["skipDeco", "skipDeco", "pass"], ["skipBody", "skipDeco", "skipDeco", "subSkip"]])
+                m = next(iter(w["modules"]))
+                for k, kind in enumerate(kinds):
+                    t = worlds.gen_test(rng, base + k, tok, kind=kind, p_write=0.0)
+                    t["layer"], t["module"] = li, m
+                    w["tests"].append(t)
+                # one suite, in this order
+                w["modules"][m]["suites"].append({"t": "node", "lyr": li, "lvl": None,
+                                                  "kids": [{"t": "leaf", "id": base + k} for k in range(len(kinds))]})
         o = worlds.gen_opts(rng, allow=("repeat",))
         o["verbose"] = rng.choice([0, 1, 2])
         cases.append(cw.Case(w, o))
